@@ -116,7 +116,11 @@ Done == /\ phase = "emit" /\ AllEmitted
         /\ (Export => PrintT(<<"CASE", mi, out, UnkBytes(unk, 1)>>))
         /\ UNCHANGED <<mi, rem, out, unk, nsh, nvar>>
 
-Next == \/ \E n \in DOMAIN rem, k \in 1..MaxChunk, packed \in BOOLEAN, pad \in 0..PadMax, mv \in MapVars : Emit(n, k, packed, pad, mv)
+\* (the quantifier domains are cut down to the combinations that can be enabled: TLC enumerates them all)
+Next == \/ \E n \in {x \in DOMAIN rem : rem[x] # <<>>} :
+            LET f == FOf(n)  pk == f.card = "repeated" /\ Packable(f.kind) IN
+            \E k \in 1..(IF pk THEN MaxChunk ELSE 1), packed \in (IF pk THEN BOOLEAN ELSE {FALSE}), pad \in 0..PadMax,
+               mv \in (IF f.card = "map" THEN MapVars ELSE {"kv"}) : Emit(n, k, packed, pad, mv)
         \/ \E n \in DOMAIN rem, pad \in 0..PadMax : Shadow(n, pad)
         \/ \E n \in DOMAIN rem, sib \in DOMAIN rem, pad \in 0..PadMax : ShadowSibling(n, sib, pad)
         \/ \E u \in 1..Len(UnkPool) : Unknown(u)
